@@ -190,6 +190,18 @@ func (fa *fileAnalysis) engine(fn *ssa.Function) *an.Facts {
 			// err == nil after a summarised call
 			if ex, isEx := x.(*ssa.Extract); isEx && !nonNil {
 				if call, isCall := ex.Tuple.(*ssa.Call); isCall {
+					// `s.F, err = requiredField(s.F, defaults.F, …)`: on success the value stored is not nil
+					if cs := coalesceOf(an.Callee(call)); cs != nil && cs.nonNil() && ex.Index == 1 {
+						for _, ref := range an.Referrers(call) {
+							if v0, ok := ref.(*ssa.Extract); ok && v0.Index == 0 {
+								for _, r2 := range an.Referrers(v0) {
+									if st, isSt := r2.(*ssa.Store); isSt && an.FieldOfAddr(st.Addr) != nil {
+										cur["nn:"+d.Of(st.Addr)] = true
+									}
+								}
+							}
+						}
+					}
 					if s := fa.sums[an.Callee(call)]; s != nil && len(call.Call.Args) > 0 {
 						for _, f := range s.facts {
 							i := strings.Index(f, ":")
